@@ -9,6 +9,8 @@ open Cppcheck.Wire Cppcheck.ValueTypeConv Cppcheck.ConvSpec
                                              <name>=<model base>/<model fixA>/<model fixAB>|<language spec through declVT>
      un   <platform> <c|cpp> <t>         →  the unary operators and the casts to every type, same format
      lit  <platform> <dec|oct|hex> <u:0|1> <#l> <value>  →  lit=<model>|<language or none> K:k6=..
+     expr <platform> <c|cpp> <prefix-encoded tree>  →  root=<base>/<fixA>/<fixAB>|<language> K:ok=..,cls=<class of the first
+                                             node that is not fine>
      plat <platform>                     →  the generated platform record (sizes, char sign, shape) -/
 namespace Driver.C09
 
@@ -45,6 +47,51 @@ def unLine (P : Plat) (cpp : Bool) (t : CT) : String :=
   let flags := s!"K:k2={boolStr (promotesToUnsigned s t)},below={boolStr (belowInt t)},cons={boolStr s.consistent}"
   " ".intercalate (("var=" ++ v.str) :: parts ++ casts ++ [flags])
 
+def base? : String → Option Base
+  | "dec" => some .dec | "oct" => some .oct | "hex" => some .hex | _ => none
+
+def UnOp.ofName (n : String) : Option UnOp := UnOp.all.find? (fun o => o.name == n)
+def BinOp.ofName (n : String) : Option BinOp := BinOp.all.find? (fun o => o.name == n)
+
+/-- prefix encoding of an expression tree: `v:<ct>` | `l:<base>:<u>:<#l>:<value>` | `u:<op> E` | `b:<op> E E` | `t E E E` |
+    `c:<ct> E`; returns the tree and the unread tokens -/
+def parseExpr : Nat → List String → Option (Expr × List String)
+  | 0, _ => none
+  | _, [] => none
+  | fuel + 1, tok :: rest =>
+    match tok.splitOn ":" with
+    | ["v", t] => (CT.ofName t).map (fun t => (Expr.var t, rest))
+    | ["l", b, u, l, v] =>
+      match base? b, l.toNat?, v.toNat? with
+      | some b, some l, some v => some (Expr.lit b (u == "1") l v, rest)
+      | _, _, _ => none
+    | ["u", o] =>
+      match UnOp.ofName o, parseExpr fuel rest with
+      | some o, some (e, r) => some (Expr.un o e, r)
+      | _, _ => none
+    | ["b", o] =>
+      match BinOp.ofName o, parseExpr fuel rest with
+      | some o, some (a, r) =>
+        match parseExpr fuel r with
+        | some (b, r2) => some (Expr.bin o a b, r2)
+        | none => none
+      | _, _ => none
+    | ["t"] =>
+      match parseExpr fuel rest with
+      | some (c, r) =>
+        match parseExpr fuel r with
+        | some (a, r2) =>
+          match parseExpr fuel r2 with
+          | some (b, r3) => some (Expr.tern c a b, r3)
+          | none => none
+        | none => none
+      | none => none
+    | ["c", t] =>
+      match CT.ofName t, parseExpr fuel rest with
+      | some t, some (e, r) => some (Expr.cast t e, r)
+      | _, _ => none
+    | _ => none
+
 def lang? : String → Option Bool
   | "c" => some false
   | "cpp" => some true
@@ -75,6 +122,12 @@ def step (line : String) : String :=
         | none => "none"
       s!"lit={c.str}|{sp} K:k6={boolStr (octalAsDecimal imax lmax base us longs value)}"
     | _, _, _, _ => "bad-op"
+  | "expr" :: p :: l :: toks =>
+    match findPlat p, lang? l, parseExpr (toks.length + 1) toks with
+    | some P, some cpp, some (e, []) =>
+      let root := "/".intercalate (Variant.all.map (fun v => optStr (typeOf v P cpp e)))
+      s!"root={root}|{(asVT (specOf P cpp e)).str} K:ok={boolStr (ok P cpp e)},wt={boolStr (wellTypedTree P cpp e)},cls={(firstClass P cpp e).str}"
+    | _, _, _ => "bad-op"
   | ["plat", p] =>
     match findPlat p with
     | some P =>
